@@ -474,6 +474,27 @@ def groupby_fs(q):
         q = q["c"][0]
 
 
+def cum_input_allnull_partition(q, env):
+    """diagnostic for failing cases that contain a cumulative operator (known finding F13): does the INPUT of that operator -
+    a DataFrame - have a non-empty partition in which some column holds only NULLs?"""
+    import dask
+    try:
+        node, targets = q, []
+        while "c" in node:
+            if node["op"] == "cum":
+                targets.append(node["c"][0])
+            node = node["c"][0]
+        for target in targets:
+            x = build(target, env, "dask")
+            low = x.expr.lower_completely()
+            for p in dask.get(low.__dask_graph__(), low.__dask_keys__()):
+                if len(p) and getattr(p, "ndim", 1) == 2 and bool(p.isna().all().any()):
+                    return True
+        return False
+    except Exception:
+        return False
+
+
 def sort_input_nullkey_partition(q, env):
     """diagnostic for failing sortedness checks (known finding F27): does the input of the top sort / set_index of the
     program (below filter / dropna / head) have a partition that holds no non-null value of the first sort key?"""
